@@ -41,7 +41,8 @@ class Entry:
 class SeqLoop:
     """for <target> in <iter>  where the iterable is `range(N)` or an abstract index sequence of symbolic length N"""
 
-    def __init__(self, func, target, iter_text, state, locals=(), element=None, axioms=None, allow_break=None):
+    def __init__(self, func, target, iter_text, state, locals=(), element=None, axioms=None, allow_break=None,
+                 after_body=None, setup=None):
         self.func = func
         self.target = target
         self.iter_text = iter_text
@@ -50,6 +51,8 @@ class SeqLoop:
         self.element = element  # element(I, k, entry, it) -> value of the loop variable in iteration k (default: k)
         self.axioms = axioms  # axioms(I, k, entry) -> list of definitional equations to assume for index k
         self.allow_break = allow_break
+        self.after_body = after_body  # after_body(I, k, entry): lemma applications linking callee spec functions
+        self.setup = setup  # setup(I, entry, it): ghost definitions made once at loop entry
 
     def matches(self, interp, node):
         return (interp.stack[-1].func_name.split(".")[-1] == self.func.split(".")[-1]
@@ -84,7 +87,7 @@ def trip_count(interp, it):
     raise Undecided(f"loop contract over {type(it).__name__}")
 
 
-def make_hook(loop_specs):
+def make_hook(loop_specs, first_match=True):
     def hook(interp, node, it):
         spec = None
         for ls in loop_specs:
@@ -92,6 +95,8 @@ def make_hook(loop_specs):
                 spec = ls
                 break
         if spec is None:
+            if first_match:
+                return first_match_hook(interp, node, it)
             return False
         run_loop(interp, node, it, spec)
         return True
@@ -135,6 +140,8 @@ def run_loop(interp, node, it, spec: SeqLoop):
     if node.orelse:
         raise Undecided("for-else under a loop contract")
 
+    if spec.setup:
+        spec.setup(interp, entry, it)
     # ---- frame of variables
     st0 = spec.state(interp, z3.IntVal(0), entry)
     carried = {k for k in st0 if isinstance(k, str)}
@@ -162,7 +169,12 @@ def run_loop(interp, node, it, spec: SeqLoop):
         for a in spec.axioms(interp, k, entry):
             path.assume(a)
     _set_state(interp, spec.state(interp, k, entry))
-    elem = spec.element(interp, k, entry, it) if spec.element else (k + lo_t if not _zero(lo) else k)
+    if spec.element:
+        elem = spec.element(interp, k, entry, it)
+    elif isinstance(it, NDArr):
+        elem = it.get(k)
+    else:
+        elem = (k + lo_t if not _zero(lo) else k)
     interp.assign(node.target, elem)
     n_writes = len(interp.writes)
     n_store_entry = Store._n
@@ -177,6 +189,8 @@ def run_loop(interp, node, it, spec: SeqLoop):
         raise Undecided("return inside a loop under a loop contract")
     if broke:
         raise Undecided("break inside a loop under a loop contract")
+    if spec.after_body:
+        spec.after_body(interp, k, entry)
     # buffers written by the body must be carried buffers
     carried_stores = {id(kv.store) for kv in st0 if not isinstance(kv, str)}
     alien = [w for w in interp.writes[n_writes:] if isinstance(w[0], Store) and id(w[0]) not in carried_stores
@@ -191,6 +205,8 @@ def run_loop(interp, node, it, spec: SeqLoop):
     if spec.axioms:
         for a in spec.axioms(interp, None, entry):
             path.assume(a)
+        for a in spec.axioms(interp, N - 1, entry):  # the defining equations of the last step (if there was one)
+            path.assume(z3.Implies(N > 0, a))
     _set_state(interp, spec.state(interp, N, entry))
 
 
@@ -214,3 +230,72 @@ def _snapshot_stores(st0):
 
 def _max_store_id(stores, entry):
     return Store._n
+
+
+# =============================================================================================
+# first-match search loops:   for i in range(N):  if C(i): <stmts>; break
+# =============================================================================================
+
+def first_match_hook(interp, node, it):
+    """Sound generic rule for the syntactic pattern above (C side-effect free, branch free):
+         either  exists s: 0<=s<N, C(s), forall k<s: not C(k), and the loop's effect is <stmts> with i = s
+         or      forall k<N: not C(k) and the loop has no effect.
+    No invariant is needed; the quantified facts are added to the path condition."""
+    if not (isinstance(it, Opaque) and it.tag == "range"):
+        return False
+    if len(node.body) != 1 or not isinstance(node.body[0], ast.If) or node.orelse:
+        return False
+    iff = node.body[0]
+    if iff.orelse or not iff.body or not isinstance(iff.body[-1], ast.Break):
+        return False
+    if not isinstance(node.target, ast.Name):
+        return False
+    for n in ast.walk(iff.test):
+        if isinstance(n, (ast.Call, ast.NamedExpr, ast.Lambda, ast.ListComp, ast.IfExp, ast.BoolOp)):
+            return False  # keep the test obviously pure and branch free
+    path = interp.path
+    fr = interp.stack[-1]
+    lo, hi = trip_count(interp, it)
+    if not _zero(lo):
+        return False
+    N = to_z3(hi)
+    tname = node.target.id
+    tag = f"{fr.func_name}:search({tname})"
+
+    # the test is safe (index bounds etc.) in every iteration: evaluate it once at a skolem iteration
+    saved = len(path.pc)
+    k0 = path.fresh("sk_it")
+    path.assume(z3.And(k0 >= 0, k0 < N))
+    fr.env[tname] = k0
+    c0 = interp.truth_term(interp.eval(iff.test))
+    del path.pc[saved:]
+
+    def C(kterm):
+        old = fr.env.get(tname)
+        fr.env[tname] = kterm
+        path.quiet += 1
+        try:
+            return interp.truth_term(interp.eval(iff.test))
+        finally:
+            path.quiet -= 1
+            if old is None:
+                fr.env.pop(tname, None)
+            else:
+                fr.env[tname] = old
+
+    s = path.fresh("first")
+    kq = z3.Int(f"kq!{path.counter.get('kq', 0)}")
+    path.counter["kq"] = path.counter.get("kq", 0) + 1
+    found = z3.And(s >= 0, s < N, C(s), z3.ForAll([kq], z3.Implies(z3.And(kq >= 0, kq < s), z3.Not(C(kq)))))
+    notfound = z3.ForAll([kq], z3.Implies(z3.And(kq >= 0, kq < N), z3.Not(C(kq))))
+    b = path.fresh("found", "bool")
+    path.assume(z3.If(b, found, notfound))
+    path.ghost.setdefault("searches", []).append(dict(found=b, first=s, C=C, N=N))
+    if path.decide(b):
+        path.assume(found)
+        fr.env[tname] = s
+        interp.exec_block(iff.body[:-1])
+    else:
+        path.assume(notfound)
+    path.engine.record(f"{tag}.pattern", "discharged", 0, "", None)
+    return True
